@@ -329,25 +329,13 @@ fn validate_parent_attrs(named_root_struct: bool, field: &Field, parent_attrs: &
 
 fn validate_fields(input: &Struct, data_type_attrs: &DataTypeAttrs, data_type_attrs_by_kind: &[(&TraitAttrCore, Kind, bool)], type_paths: &HashSet<&TypePath>, errors: &mut HashMap<String, Span>) {
     let into_type_paths = data_type_attrs_by_kind.iter().filter_map(|(x, kind, _)|(!kind.is_from() && !kind.is_into_existing()).then_some(&x.ty)).collect::<HashSet<_>>();
-    let from_type_paths = data_type_attrs_by_kind.iter().filter_map(|(x, kind, _)|(x.update.is_none() && kind.is_from()).then_some(&x.ty)).collect::<HashSet<_>>();
 
     for field in &input.fields {
-        for ghost_attr in field.attrs.ghost_attrs.iter() {
-            if ghost_attr.attr.action.is_some() {
-                continue;
-            }
-            match &ghost_attr.attr.container_ty {
-                Some(tp) => {
-                    if from_type_paths.contains(tp) {
-                        errors.insert(format!("Member instruction #[ghost(...)] for member '{}' should provide default value for type {}", field.member.to_token_stream(), tp.path_str), field.member.span());
-                    }
-                },
-                None => {
-                    let field_name_str = field.member.to_token_stream().to_string();
-                    for tp in from_type_paths.iter() {
-                        errors.insert(format!("Member instruction #[ghost(...)] for member '{}' should provide default value for type {}", field_name_str, tp.path_str), field.member.span());
-                    }
-                },
+        // A From conversion needs a value for a ghost member: what counts is the #[ghost] instruction that conversion selects
+        // (the one dedicated to its counterpart before the default one), not every #[ghost] instruction the member carries
+        for (data_type_attr, kind, _) in data_type_attrs_by_kind.iter().filter(|(x, kind, _)| kind.is_from() && x.update.is_none()) {
+            if field.attrs.ghost(&data_type_attr.ty, kind).is_some_and(|x| x.action.is_none()) {
+                errors.insert(format!("Member instruction #[ghost(...)] for member '{}' should provide default value for type {}", field.member.to_token_stream(), data_type_attr.ty.path_str), field.member.span());
             }
         }
 
